@@ -368,9 +368,11 @@ class DataFile:
       try:
         self.max_row_count = int(self.gsi.MNR)
         LOGGER.debug("GSI MNR: %s", self.gsi.MNR)
+        if self.max_row_count <= 0:
+          raise ValueError("MNR must be positive")
       except ValueError:
         LOGGER.error("Invalid MNR value: %s", self.gsi.MNR)
-        self.start_offset = DEFAULT_TELETEXT_ROWS
+        self.max_row_count = DEFAULT_TELETEXT_ROWS
     else:
       self.max_row_count = max_row_count
 
